@@ -64,3 +64,46 @@ Theorem C20_end_position_is_common_suffix : forall s (o : node -> node -> bool),
   let k := lcp (rev (aftoks s a)) (rev (aftoks s b)) in qa = pa - k /\ qb = pb - k.
 Proof. exact find_diff_end_position. Qed.
 Print Assumptions C20_end_position_is_common_suffix.
+
+(* ---- symmetry ---- *)
+From Coq Require Import NArith Lia.
+From PM Require Import Proofs.DataProofs Proofs.ReplaceCanon.
+
+Lemma atok_eqb_sym x y : atok_eqb x y = atok_eqb y x.
+Proof.
+  destruct x, y; simpl; auto;
+    try (rewrite Nat.eqb_sym, attrs_eqb_sym, marks_eqb_sym; reflexivity).
+  rewrite N.eqb_sym, marks_eqb_sym. reflexivity.
+Qed.
+Lemma lcp_comm a : forall b, lcp a b = lcp b a.
+Proof.
+  induction a as [|x a IH]; destruct b as [|y b]; simpl; auto.
+  rewrite atok_eqb_sym. destruct (atok_eqb y x); auto.
+Qed.
+
+(* the first difference does not depend on which fragment is called "self": whenever both orders report a position,
+   it is the same position; likewise the last difference, with the two coordinates exchanged *)
+Theorem C20_start_symmetric : forall s (o o' : node -> node -> bool), sound_oracle o -> sound_oracle o' ->
+  forall a b pos p q,
+  canon_list s a = true -> canon_list s b = true -> ok_list a = true -> ok_list b = true ->
+  find_diff_start s o a b pos = Some p -> find_diff_start s o' b a pos = Some q -> p = q.
+Proof.
+  intros s o o' Ho Ho' a b pos p q Ca Cb Oa Ob H1 H2.
+  destruct (C20_start_position_is_common_prefix s o Ho a b pos p Ca Cb Oa Ob H1) as [L1 E1].
+  destruct (C20_start_position_is_common_prefix s o' Ho' b a pos q Cb Ca Ob Oa H2) as [L2 E2].
+  rewrite lcp_comm in E2. lia.
+Qed.
+Print Assumptions C20_start_symmetric.
+
+Theorem C20_end_symmetric : forall s (o o' : node -> node -> bool), sound_oracle o -> sound_oracle o' ->
+  forall a b pa pb qa qb ra rb,
+  canon_list s a = true -> canon_list s b = true -> ok_list a = true -> ok_list b = true ->
+  find_diff_end s o a b pa pb = Some (qa, qb) -> find_diff_end s o' b a pb pa = Some (rb, ra) ->
+  qa = ra /\ qb = rb.
+Proof.
+  intros s o o' Ho Ho' a b pa pb qa qb ra rb Ca Cb Oa Ob H1 H2.
+  pose proof (C20_end_position_is_common_suffix s o Ho a b pa pb qa qb Ca Cb Oa Ob H1) as E1.
+  pose proof (C20_end_position_is_common_suffix s o' Ho' b a pb pa rb ra Cb Ca Ob Oa H2) as E2.
+  cbv zeta in E1, E2. rewrite lcp_comm in E2. lia.
+Qed.
+Print Assumptions C20_end_symmetric.
